@@ -23,6 +23,19 @@ def assigned_names(stmts):
     return out
 
 
+def _conj(c):
+    return sym.and_(*c.values()) if isinstance(c, dict) else c
+
+
+def _prove_inv(ctx, name, c):
+    """an invariant given as {part name: claim} is proved part by part (finer obligation names)"""
+    if isinstance(c, dict):
+        for k, v in c.items():
+            ctx.prove(f'{name}.{k}', v)
+    else:
+        ctx.prove(name, c)
+
+
 class LoopSpec:
     def __init__(self, name, inv, havoc_objs=None, kinds=None, length=None):
         self.name = name
@@ -65,11 +78,11 @@ class LoopSpec:
         if getattr(iterable, '_sym_enumerate', None) is not None:
             seq, enum = iterable.seq, True
         n = self.length(seq) if self.length else interp.globals['len'](seq)
-        ctx.prove(f'{self.name}.inv.entry', self.inv(0, self._envdict(env)))
+        _prove_inv(ctx, f'{self.name}.inv.entry', self.inv(0, self._envdict(env)))
         self._havoc(interp, node, env)
         k = ctx.int(ctx.fresh_name(f'{self.name}.k'))
         ctx.assume(sym.and_(0 <= k, k <= n))
-        ctx.assume(self.inv(k, self._envdict(env)))
+        ctx.assume(_conj(self.inv(k, self._envdict(env))))
         if truth(k < n):
             elem = interp.getitem(seq, k)
             interp.assign(node.target, (k, elem) if enum else elem, env)
@@ -79,16 +92,16 @@ class LoopSpec:
                 pass
             except _Break:
                 return
-            ctx.prove(f'{self.name}.inv.preserved', self.inv(k + 1, self._envdict(env)))
+            _prove_inv(ctx, f'{self.name}.inv.preserved', self.inv(k + 1, self._envdict(env)))
             raise PathAbort()
         interp.exec_block(node.orelse, env)
 
     def run_while(self, interp, node, env):
         from .interp import _Break, _Continue
         ctx = cur()
-        ctx.prove(f'{self.name}.inv.entry', self.inv(None, self._envdict(env)))
+        _prove_inv(ctx, f'{self.name}.inv.entry', self.inv(None, self._envdict(env)))
         self._havoc(interp, node, env)
-        ctx.assume(self.inv(None, self._envdict(env)))
+        ctx.assume(_conj(self.inv(None, self._envdict(env))))
         if truth(interp.eval(node.test, env)):
             try:
                 interp.exec_block(node.body, env)
@@ -96,7 +109,7 @@ class LoopSpec:
                 pass
             except _Break:
                 return
-            ctx.prove(f'{self.name}.inv.preserved', self.inv(None, self._envdict(env)))
+            _prove_inv(ctx, f'{self.name}.inv.preserved', self.inv(None, self._envdict(env)))
             raise PathAbort()
         interp.exec_block(node.orelse, env)
 
